@@ -17,6 +17,7 @@ from __future__ import annotations
 
 import base64
 import binascii
+import math
 from decimal import ROUND_HALF_UP, Decimal, localcontext
 from enum import Enum
 from typing import TYPE_CHECKING, Any
@@ -57,6 +58,10 @@ INTEGER_TYPES = [
 ]
 
 NUMBER_TYPES = INTEGER_TYPES + [CharacteristicFormats.float]
+
+# No HomeKit number format reaches beyond a double (about 1.8e308). Larger values cannot be
+# written, and must not be expanded into integers with millions of digits on the way.
+LARGEST_EXPONENT = 308
 
 
 def strtobool(val):
@@ -363,6 +368,9 @@ def check_convert_value(val: str, char: Characteristic) -> Any:
         if char.maxValue is not None:
             val = min(Decimal(char.maxValue), val)
 
+        if val and val.adjusted() > LARGEST_EXPONENT:
+            raise FormatError(f'"{val}" is no valid "{char.format}"!')
+
         # Honeywell T6 Pro cannot handle arbritary precision, the values we send
         # *must* respect minStep
         # See https://github.com/home-assistant/core/issues/37083
@@ -392,12 +400,19 @@ def check_convert_value(val: str, char: Characteristic) -> Any:
                 else:
                     # We use to_integral_value() here rather than round as it respsects
                     # ctx.rounding
-                    val = offset + (((val - offset) / min_step).to_integral_value() * min_step)
+                    try:
+                        val = offset + (((val - offset) / min_step).to_integral_value() * min_step)
+                    except ArithmeticError:
+                        # decimal.Overflow: the grid point is beyond the exponent range of the context
+                        raise FormatError(f'"{val}" is no valid "{char.format}"!')
 
         if char.format in INTEGER_TYPES:
             val = int(val.to_integral_value())
         else:
             val = float(val)
+            if not math.isfinite(val):
+                # finite, but beyond the largest double
+                raise FormatError(f'"{val}" is no valid "{char.format}"!')
 
     if char.format == CharacteristicFormats.data:
         try:
